@@ -1,9 +1,15 @@
 #!/bin/sh
 # usage: tools/seed_pipeline.sh C13 [tier] [props]  -- intake + verify + detect for what a sub-agent left in /tmp/seed/<ID>/out
-id="$1"; tier="${2:-quick}"; props="${3:-own}"
+id="$1"; tier="${2:-quick}"; props="${3:-own}"; round="${4:-1}"
 cd /verif
-/venv/bin/python tools/seeded.py intake "$id" || exit 1
-for d in seeded/$id-*; do
+if [ "$round" = 2 ]; then
+  /venv/bin/python tools/seeded.py intake "$id" --out out2 --offset 2 || exit 1
+  dirs="seeded/$id-3 seeded/$id-4"
+else
+  /venv/bin/python tools/seeded.py intake "$id" || exit 1
+  dirs="seeded/$id-1 seeded/$id-2"
+fi
+for d in $dirs; do
   [ -f "$d/patch.diff" ] || continue
   /venv/bin/python tools/seeded.py verify "$d" && /venv/bin/python tools/seeded.py detect "$d" --tier "$tier" --props "$props"
 done
